@@ -50,6 +50,38 @@ def boundary_forests():
     for _ in range(40):
         v = iongen.gen_value(rng, 0, {"p_annot": 0})
         fs.append([([b"ann"], v[1]), ([], ("struct", [(b"fld", ([b"x", b"y"], v[1]))])), ([], ("list", [v])), ([], ("sexp", [v]))])
+    # nested containers whose BODY length sits on every length-encoding boundary
+    for L in (12, 13, 14, 15, 126, 127, 128, 129, 16382, 16383, 16384, 16385):
+        for kind in ("list", "sexp", "struct"):
+            pay = L - (1 if L - 1 < 14 else (2 if L - 2 < 128 else 3))      # string tag + length bytes
+            if kind == "struct":
+                pay -= 1                                                     # one-byte field id (system symbol)
+            pay = max(pay, 0)
+            inner = (kind, [([], ("str", b"q" * pay))]) if kind != "struct" else ("struct", [(b"name", ([], ("str", b"q" * pay)))])
+            fs.append([([], ("list", [([], inner), ([], ("int", 1))])), ([b"name"], inner), ([], ("struct", [(b"version", ([], inner))]))])
+    # floats around the float32 normal/subnormal limits with few mantissa bits
+    import struct as _st
+    fl = []
+    for e in list(range(-160, -118)) + [127, 128, -1, 0]:
+        for m in (1.0, 1.5, 1.25, 1.75, 1.0000001192092896):
+            try:
+                fl.append(_st.unpack(">Q", _st.pack(">d", m * 2.0 ** e))[0])
+            except OverflowError:
+                pass
+    fs.append([([], ("float", b)) for b in fl] + [([], ("float", b | (1 << 63))) for b in fl[:40]])
+    # many distinct symbols: symbol IDs beyond 127 and beyond 16383 as values, annotations and field names
+    many = [("s%04d" % i).encode() for i in range(150)]
+    fs.append([([], ("sym", t)) for t in many] + [([many[-1], many[130]], ("struct", [(many[140], ([many[128]], ("sym", many[149])))]))])
+    big = [("t%05d" % i).encode() for i in range(16500)]
+    fs.append([([], ("list", [([], ("sym", t)) for t in big]))] + [([big[-1]], ("struct", [(big[16400], ([big[16390]], ("bool", True)))]))])
+    # $ion_symbol_table-annotated structs that are NOT at the top level are ordinary values
+    lstlike = ([b"$ion_symbol_table"], ("struct", [(b"symbols", ([], ("list", [([], ("str", b"zzz"))])))]))
+    fs.append([([], ("list", [([], ("sym", b"before")), lstlike, ([], ("sym", b"after"))])), ([], ("sym", b"tail"))])
+    fs.append([([], ("struct", [(b"f", lstlike)])), ([], ("sexp", [lstlike])), ([], ("sym", b"tail2"))])
+    # timestamps with every count of fractional digits
+    for nf in range(1, 10):
+        fs.append([([], ("ts", (2001, 2, 3, 4, 5, 6, 123456789 // 10 ** (9 - nf) * 10 ** (9 - nf), 0, 1, 6, nf))),
+                   ([], ("ts", (2001, 2, 3, 4, 5, 6, 10 ** (9 - nf), 90, 2, 6, nf))), ([], ("ts", (2001, 2, 3, 4, 5, 6, 0, 0, 0, 6, nf)))])
     # deep nesting
     v = ([], ("int", 7))
     for i in range(60):
